@@ -6,7 +6,7 @@ owning object's latch state sampled at the instant of the write) and on the
 objects' err / port attributes after every op.  DESIGN.md section 7, C04.
 """
 
-from common import (V, E3_METHODS, E3_NAMES, E3_CANON, EXC_ALL, EXC_SERIAL, failish, req_name, ebb_spec,
+from common import (V, pair_faults, E3_METHODS, E3_NAMES, E3_CANON, EXC_ALL, EXC_SERIAL, failish, req_name, ebb_spec,
                     PORT_NAMES, distinct_ram, mk_ops, call, discover, single_faults, with_faults, reply_fault,
                     wrong_line)
 
@@ -94,6 +94,9 @@ def check(scn, hist):
                                          'connect() to a healthy supported board on a latched object: ret=%r port=%r'
                                          % (rec['ret'], a['port'])))
             elif m == 'disconnect':
+                if latched and wrote:
+                    out.append(V(PROP, 'write_after_latch', m, oid,
+                                 'disconnect() of a latched object transmitted %r' % wrote))
                 if a['port'] is not None:
                     out.append(V(PROP, 'disconnect_blocked', m, oid, 'port still set after disconnect()'))
                 if b['hid'] is not None:
@@ -203,20 +206,32 @@ def observe(scn, hist, st):
 # ---------------------------------------------------------------------------
 # sweep
 
-def tail_ops(obj=0, with_reconnect=True):
+# argument shapes that are only meaningful for the blocked states (on a healthy object a blank request is
+# outside every given property, so these are never judged there)
+BLOCKED_EXTRA = [('command', ['']), ('command', [' ']), ('command', ['\r']), ('query', ['']), ('query', [' \t']),
+                 ('write_nickname', ['Bob']), ('write_nickname', [' Bob ']), ('write_nickname', ['']),
+                 ('var_read', [5]), ('var_read_int32', [5]), ('var_write', [9, 5]), ('motors_enable', [1, 1]),
+                 ('abs_move', [1000], {'position1': 0, 'position2': 0}), ('pen_raise', [100], {'pin': 0}),
+                 ('servo_timeout', [60000], {'state': 0}), ('query_voltage', [None])]
+
+
+def _block(obj):
     ops = []
     for m, ci in TAIL_METHODS:
         a, k = E3_CANON[m][ci]
         ops.append(call(obj, m, a, k))
+    for ent in BLOCKED_EXTRA:
+        ops.append(call(obj, ent[0], ent[1], ent[2] if len(ent) > 2 else None))
+    return ops
+
+
+def tail_ops(obj=0, with_reconnect=True):
+    ops = _block(obj)
     if with_reconnect:
         ops.append(call(obj, 'disconnect'))
-        for m, ci in TAIL_METHODS:
-            a, k = E3_CANON[m][ci]
-            ops.append(call(obj, m, a, k))
+        ops += _block(obj)
         ops.append(call(obj, 'connect'))
-        for m, ci in TAIL_METHODS:
-            a, k = E3_CANON[m][ci]
-            ops.append(call(obj, m, a, k))
+        ops += _block(obj)
         ops.append(call(obj, 'disconnect'))
         ops.append(call(obj, 'disconnect'))
     return ops
@@ -244,15 +259,21 @@ def sweep_expand(cell):
     if what == 'method':
         m = x
         a, k = E3_CANON[m][ci]
-        head = [{'op': 'new', 'obj': 0}, call(0, 'connect'), call(0, 'var_write', [9, 5]), call(0, m, a, k)]
+        head = [{'op': 'new', 'obj': 0}, call(0, 'connect'), call(0, 'var_write', [9, 5]),
+                call(0, 'motors_enable', [2, 2]), call(0, m, a, k)]
+        # (the object has a past: a name known from connect, a variable it wrote, motors it enabled)
         base = {'prop': PROP, 'world': _world(), 'ops': mk_ops(head + tail_ops()), 'faults': {}, 'snap_dev': False}
-        recs, _ = discover({'prop': PROP, 'world': _world(), 'ops': base['ops'][:4], 'faults': {}})
+        recs, _ = discover({'prop': PROP, 'world': _world(), 'ops': base['ops'][:5], 'faults': {}})
         excs = EXC_SERIAL if m in ('reboot', 'bootload') else EXC_ALL
         yield base
-        for tag, faults in single_faults(recs[3], exc_classes=excs,
+        for tag, faults in single_faults(recs[4], exc_classes=excs,
                                          reply_kinds=['drop', 'drop_request', 'err_bang', 'err_named',
                                                       'stale_instead', 'stale_front', 'late26']):
             yield with_faults(base, faults)
+        if m not in ('reboot', 'bootload'):
+            head_scn = {'prop': PROP, 'world': _world(), 'ops': base['ops'][:5], 'faults': {}}
+            for faults in pair_faults(head_scn, 4, delays=(1, 25)):
+                yield with_faults(base, faults)
         return
     kind = x
     ops = [{'op': 'new', 'obj': 0}]
@@ -358,6 +379,10 @@ def gen(rng, idx):
             a, kw = E3_METHODS[m](rng)
             if m == 'command' and req_name(a[0]).lower() in ('rb', 'bl') and rng.random() < 0.8:
                 a = ['SM,10,1,1']
+            if m in ('command', 'query') and rng.random() < 0.06:
+                a = [rng.choice(['', ' ', '\r', '\t '])]        # judged only while the object is blocked
+            if m == 'write_nickname' and rng.random() < 0.4:
+                a = [rng.choice(['B0', 'B1', 'B2', 'Axi0', 'Axi1', 'Axi2', ''])]   # often the tag it already has
             ops.append(call(k, m, a, kw))
     mk_ops(ops)
     scn = {'prop': PROP, 'world': world, 'ops': ops, 'faults': {}, 'snap_dev': False}
